@@ -148,7 +148,8 @@ func cmdCheck(args []string) {
 		// the tree does not load (does not compile?): nothing can be decided
 		fmt.Printf("UNDECIDED property=%s reason=packages do not load: %v\n", *prop, err)
 		writeEv(&evidence{PropertyID: *prop, Tier: *tier, Seed: seed, Level: "other",
-			Coverage: map[string]any{"explanation": "packages failed to load, no obligations generated: " + err.Error(), "obligations": 0, "discharged": 0}})
+			Coverage: map[string]any{"explanation": "packages failed to load, no obligations generated: " + err.Error(), "obligations": 0, "discharged": 0},
+			Assumptions: []string{}})
 		os.Exit(0)
 	}
 	sel := func(fc *FuncContract) bool {
@@ -185,13 +186,13 @@ func cmdCheck(args []string) {
 	}
 	violations := 0
 	discharged := 0
-	var undecided []string
+	undecided := []string{}
 	var samples []any
 	bySolver := map[string]int{}
 	var solverSecs float64
 	assumptions := map[string]bool{}
 	var funcs []string
-	var knownHit []string
+	knownHit := []string{}
 	for _, fr := range frs {
 		funcs = append(funcs, fr.FullName)
 		if fr.Err != "" {
@@ -308,7 +309,7 @@ func cmdCheck(args []string) {
 		}
 	}
 	// expected obligations that vanished
-	var missing []string
+	missing := []string{}
 	for n := range expected {
 		if !seenNames[n] {
 			missing = append(missing, n)
@@ -332,7 +333,7 @@ func cmdCheck(args []string) {
 	}
 	total := len(all)
 	level := "proof"
-	var as []string
+	as := []string{"integers are modelled exactly (mathematical Int with explicit mod 2^w wrap, or bit-vectors); no concurrency, crash, I/O or resource-limit behaviour is modelled (DESIGN.md §4)"}
 	for a := range assumptions {
 		as = append(as, a)
 	}
